@@ -121,6 +121,7 @@ def run(res):
     import re as _re
     known_wxs = 0
     known_cmt = 0
+    known_cap = 0
     for j in jobs_in:
         classes[j["class"]] = classes.get(j["class"], 0) + 1
         if _re.search(r"</wxs[A-Za-z0-9_.\-]", j["src"]) and "KF-C14-2" in kf:
@@ -138,6 +139,8 @@ def run(res):
             uses_for = "wx:for" in j["src"]
             if r["mangle"] and uses_for:
                 known_for += 1      # KF-C14-1: excluded below
+            if r["mangle"] and _re.search(r"_\$\d", j["src"]) and "KF-C14-4" in kf:
+                known_cap += 1      # KF-C14-4: the mangled comparison is excluded below
             if bad and not (r["mangle"] and uses_for):
                 viol("%s print of a %s template re-parses with %r (level %d)" % (tag, j["class"], bad[0][0], bad[0][1]),
                      {"src": j["src"], "printed": r["s1"], "diagnostics": bad})
@@ -164,6 +167,8 @@ def run(res):
         for tag, r in (("plain", rp), ("mangled", rm)):
             if tag == "mangled" and "wx:for" in j["src"]:
                 continue
+            if tag == "mangled" and _re.search(r"_\$\d", j["src"]) and "KF-C14-4" in kf:
+                continue
             n_cmp += 1
             if r.get("error"):
                 viol("the %s re-print throws: %s" % (tag, r["error"][:200]), {"src": j["src"], "printed": j["rounds"][0 if tag == "plain" else 1]["s1"]})
@@ -178,6 +183,8 @@ def run(res):
         res.known.append("KF-C14-1: %s (%d mangled prints with wx:for excluded in this run)" % (kf["KF-C14-1"]["what"], known_for))
     if known_wxs:
         res.known.append("KF-C14-2: %s (%d templates of this class left out in this run)" % (kf["KF-C14-2"]["what"], known_wxs))
+    if known_cap:
+        res.known.append("KF-C14-4: %s (%d mangled prints of this class excluded in this run)" % (kf["KF-C14-4"]["what"], known_cap))
     if known_cmt:
         res.known.append("KF-C14-3: %s (%d templates of this class left out in this run)" % (kf["KF-C14-3"]["what"], known_cmt))
     if not ok:
